@@ -67,8 +67,14 @@ pub fn io_host_space() -> Vec<StructProg> {
                     _ => ("@group(0) @binding(0) var<storage, read> data: array<Root, 4>;", "array-element"),
                 };
                 src.push_str(decl);
-                src.push_str("\n@vertex fn vs_main(v: Root) -> @builtin(position) vec4<f32> {\n    return vec4<f32>(0.0);\n}\n");
-                out.push(StructProg { key: format!("io-host|{}|{}|variant={variant}|{key}", a.wgsl(), b.wgsl()), env, root: "Root".into(), space: "storage-read", src });
+                let vs_param = "\n@vertex fn vs_main(v: Root) -> @builtin(position) vec4<f32> {\n    return vec4<f32>(0.0);\n}\n";
+                let fs_return = "\n@fragment fn fs_main() -> Root {\n    var o: Root;\n    return o;\n}\n";
+                out.push(StructProg { key: format!("io-host|{}|{}|variant={variant}|{key}", a.wgsl(), b.wgsl()), env: env.clone(), root: "Root".into(), space: "storage-read", src: format!("{src}{vs_param}") });
+                // the struct is (also) a stage output: it is still host-shareable through the buffer, so it is still emitted
+                if variant != 2 && (i + j) % 2 == 0 {
+                    out.push(StructProg { key: format!("io-host|{}|{}|variant={variant}|{key}|role=fs-return", a.wgsl(), b.wgsl()), env: env.clone(), root: "Root".into(), space: "storage-read", src: format!("{src}{fs_return}") });
+                    out.push(StructProg { key: format!("io-host|{}|{}|variant={variant}|{key}|role=vs-param+fs-return", a.wgsl(), b.wgsl()), env, root: "Root".into(), space: "storage-read", src: format!("{src}{vs_param}{fs_return}") });
+                }
             }
         }
     }
@@ -294,6 +300,38 @@ pub fn run(tier: &str) -> i32 {
     let mut progs = struct_space(true, true, true, false);
     progs.extend(io_host_space());
     progs.extend(multi_var_space());
+    // member / element types written through `alias` declarations
+    {
+        let n0 = progs.len();
+        for i in 0..n0 {
+            if thorough || i % 11 == 0 {
+                let v = alias_variants(&progs[i]);
+                progs.extend(v);
+            }
+        }
+    }
+    // the same structs among declarations that produce no Rust struct (an unused struct, a function-local one, a
+    // stage-output struct), placed before all structs and between them: sizes and offsets are per struct, whatever
+    // else the module declares
+    {
+        let extra_structs = "struct NotEmittedSmall { x: f32 };\nstruct NotEmittedBig { a: mat4x4<f32>, b: vec3<f32>, c: f32 };\nstruct VsOutOnly { @builtin(position) p: vec4<f32>, @location(0) c: vec2<f32> };\n";
+        let extra_fns = "fn uses_local() -> f32 { var l: NotEmittedBig; return l.c; }\n@vertex fn vs_extra_out() -> VsOutOnly { var o: VsOutOnly; o.c = vec2<f32>(uses_local()); return o; }\n";
+        let n0 = progs.len();
+        for i in 0..n0 {
+            let forced = progs[i].key.starts_with("s2|vec3<f32>|f32") || progs[i].key.starts_with("io-host|") || progs[i].key.starts_with("multi-var|");
+            if !(thorough || i % 7 == 0 || forced) {
+                continue;
+            }
+            for place in ["before", "between"] {
+                let mut p = progs[i].clone();
+                let at = if place == "before" { 0 } else { p.src.rfind("struct ").unwrap_or(0) };
+                p.src.insert_str(at, extra_structs);
+                p.src.push_str(extra_fns);
+                p.key = format!("neighbours-{place}|{}", p.key);
+                progs.push(p);
+            }
+        }
+    }
     // ---- (a) whole space x 3 representations
     let reprs = [Repr::Rust, Repr::Glam, Repr::Nalgebra];
     let items: Vec<(usize, Repr)> = (0..progs.len()).flat_map(|i| reprs.iter().map(move |r| (i, *r))).collect();
